@@ -45,10 +45,10 @@ def run(R):
             b = tb.body('tonic_build::client::generate_' + k)
             R.saw(b)
             c = b.calls(name='format_method_path')
-            okc = len(c) == 1 and show(strip_refs(b.origin(c[0][1]['args'][0]))).startswith('arg1') and show(strip_refs(b.origin(c[0][1]['args'][1]))).startswith('arg2') and 'emit_package' in show(b.origin(c[0][1]['args'][2]))
+            okc = len(c) == 1 and show(strip_refs(b.origin(c[0][1]['args'][0]))).startswith('arg1') and show(strip_refs(b.origin(c[0][1]['args'][1]))).startswith('arg2') and strip_refs(b.origin(c[0][1]['args'][2]))[0] == 'arg'
             R.check(okc, 'C11.R1', 'client:%s:path-from-formatter' % k, site(b), 'format_method_path(service, method, emit_package): %d site(s)' % len(c))
             s2 = b.calls(name='format_service_name')
-            R.check(len(s2) == 1 and 'emit_package' in show(b.origin(s2[0][1]['args'][1])), 'C11.R1', 'client:%s:service-name-from-formatter' % k, site(b), 'GrpcMethod service name from format_service_name(service, emit_package)')
+            R.check(len(s2) == 1 and strip_refs(b.origin(s2[0][1]['args'][1])) == strip_refs(b.origin(c[0][1]['args'][2])) if c else False, 'C11.R1', 'client:%s:service-name-from-formatter' % k, site(b), 'GrpcMethod service name from format_service_name(service, emit_package)')
         callers = sorted({short(bd.path) for bd, bb, t in call_sites_in_crate(tb, name='format_method_path')})
         R.eq(callers, ['tonic_build::client::generate_client_streaming', 'tonic_build::client::generate_server_streaming', 'tonic_build::client::generate_streaming', 'tonic_build::client::generate_unary', 'tonic_build::server::generate_methods'],
              'C11.R1', 'formatter-callers', '', 'callers of format_method_path')
@@ -70,7 +70,7 @@ def run(R):
         for side in ('client', 'server'):
             b = tb.body('tonic_build::%s::generate_internal' % side)
             c = b.calls(name='format_service_name')
-            R.check(len(c) == 1 and 'emit_package' in show(b.origin(c[0][1]['args'][1])), 'C11.R1', '%s:SERVICE_NAME-from-formatter' % side, site(b), 'format_service_name(service, emit_package) in %s::generate_internal' % side)
+            R.check(len(c) == 1 and strip_refs(b.origin(c[0][1]['args'][1]))[0] == 'arg', 'C11.R1', '%s:SERVICE_NAME-from-formatter' % side, site(b), 'format_service_name(service, emit_package) in %s::generate_internal' % side)
 
     # ---------------------------------------------------------------- R2 kind table
     R.describe('C11.R2', '(client_streaming, server_streaming) -> leaf generator is the same kind table on the client and the server side; prost adapters: identifier() = proto_name, name() = name, streaming flags read the same-named descriptor fields')
